@@ -94,6 +94,28 @@ def unsafeSiteFrom (fn : String) : Bool :=
   let fs := callReach 4000 [fn] []
   GenC09.boundSites.any fun s => fs.contains s.fn && !(auditedBoundSites.contains (s.fn, s.expr)) && (!s.safe || !s.loopGuarded)
 
+/-- the functions reachable from `todo` through the regenerated call edges towards unguarded type assertions -/
+def assertReach (fuel : Nat) (todo seen : List String) : List String :=
+  match fuel, todo with
+  | 0, _ => seen
+  | _, [] => seen
+  | fuel + 1, n :: rest =>
+    if seen.contains n then assertReach fuel rest seen
+    else assertReach fuel (rest ++ (GenC09.assertCalls.filter (·.1 == n)).map (·.2)) (n :: seen)
+
+/-- a single-value type assertion no guard dominates (audited ones aside) in a function reachable from `fn`: a token
+    whose JOSE header / a document whose member has another JSON type than the code expects may panic there -/
+def unsafeAssertFrom (fn : String) : Bool :=
+  let fs := assertReach 4000 [fn] []
+  GenC09.assertSites.any fun s => fs.contains s.fn && !s.safe && !(auditedAsserts.contains (s.fn, s.expr))
+
+/-- evaluated once per verifier name -/
+def assertTable : List (String × Bool) :=
+  ["rp.VerifyIDToken", "op.VerifyIDTokenHint", "op.VerifyAccessToken", "op.VerifyJWTAssertion", "op.ParseRequestObject", "oidc.CheckSignature"].map
+    fun fn => (fn, unsafeAssertFrom fn)
+
+def assertMay (fn : String) : Bool := match assertTable.find? (·.1 == fn) with | some p => p.2 | none => unsafeAssertFrom fn
+
 /-- every client-side helper reads the provider's answer through `httphelper.HttpRequest` -/
 def httpRequestMayPanic : Bool := unsafeSiteFrom "http.HttpRequest"
 
@@ -117,7 +139,9 @@ def modelLine (l : Line) : String × Bool :=
     let shortHeader := has l "hlen" && (fnPanicsAt GenC09.boundSites "op.getAccessToken" "authHeader" (nat l "hlen") || unsafeAt "op.getAccessToken" "authHeader")
     -- a code_verifier for an auth request without a challenge: the second router hands VerifyCodeChallenge a nil challenge
     let nilChallenge := bool l "nilch" && !GenC09.nilGuardedParams.contains ("oidc.VerifyCodeChallenge", "c")
-    let mayPanic := hintPanic || nilClient || shortCipher || shortHeader || nilChallenge
+    -- a token with an arbitrary JOSE header reaches the verifier `hfn`: an unguarded type assertion on the way?
+    let hdrPanic := has l "hplace" && assertMay (str l "hfn")
+    let mayPanic := hintPanic || nilClient || shortCipher || shortHeader || nilChallenge || hdrPanic
     if ((shapeTable.find? (·.1 == ent)).map (·.2)).getD true then
       if mayPanic then ("single-response/may-panic", (monitorLine l).isNone || bool l "panic")
       else ("single-response", (monitorLine l).isNone)
@@ -149,6 +173,7 @@ def modelLine (l : Line) : String × Bool :=
   | "verify" =>
     let t : Tok := { parts := nat l "parts", b64ok := bool l "b64", payload := jvalOf l }
     let p := verifyPanics F (str l "fn") t
+    if has l "hname" && assertMay (str l "fn") then ((if p then "panic" else "no-panic") ++ "/may-panic", p == (obs == "panic") || obs == "panic") else
     (if p then "panic" else "no-panic", p == (obs == "panic"))
   | "hint" =>
     match F.callers.find? (·.fn == str l "caller") with
